@@ -64,6 +64,9 @@ struct Cfg {
   bool gravity = false, cooling = false, restart_midway = false;
   // threads of the run restarted midway (0: as the first run)
   int restart_threads = 0;
+  // 'output sources: true' for the distributions that keep a source log
+  // (UniformRandom, DiscPatch, Caproni): extra bookkeeping in the dump
+  bool source_log = false;
   int live_mask = 7; // which live outputs are switched on
   int source_type = 0; // 0 SingleStar, 1 AsciiFile, 2 UniformRandom, 3 SingleSupernova, 4 DiscPatch, 5 Caproni (positions on galactic scales: only without radiation)
   bool feedback = false;
@@ -140,6 +143,7 @@ struct Cfg {
     j["cooling"] = cooling;
     j["restart_midway"] = restart_midway;
     j["restart_threads"] = restart_threads;
+    j["source_log"] = source_log;
     j["live_mask"] = live_mask;
     j["source_type"] = source_type;
     j["feedback"] = feedback;
@@ -209,6 +213,7 @@ struct Cfg {
     c.cooling = j.at("cooling").as_bool();
     c.restart_midway = j.at("restart_midway").as_bool();
     c.restart_threads = (int)j.at("restart_threads").as_int(0);
+    c.source_log = j.at("source_log").as_bool();
     c.live_mask = (int)j.at("live_mask").as_int(7);
     c.source_type = (int)j.at("source_type").as_int(0);
     c.feedback = j.at("feedback").as_bool();
@@ -317,14 +322,15 @@ struct Cfg {
         << "  box anchor: " << vec(anchor, "m") << "\n  box sides: "
         << vec(sides, "m") << "\n  random seed: 42\n"
         << sfmt("  update interval: %.17g s\n", 0.05 * total_time)
-        << "  starting time: 0. s\n  output sources: false\n";
+        << "  starting time: 0. s\n  output sources: "
+        << (source_log ? "true" : "false") << "\n";
     } else if (source_type == 5) {
       o << "PhotonSourceDistribution:\n  type: Caproni\n"
         << "  number function norm: 0.05\n  UV luminosity norm: 1.\n"
         << "  random seed: 44\n"
         << sfmt("  update interval: %.17g s\n", 0.05 * total_time)
         << "  starting time: 0. s\n  boost factor: 1.\n"
-        << "  output sources: false\n";
+        << "  output sources: " << (source_log ? "true" : "false") << "\n";
     } else if (source_type == 4) {
       o << "PhotonSourceDistribution:\n  type: DiscPatch\n"
         << sfmt("  source lifetime: %.17g s\n", 0.3 * total_time)
@@ -334,7 +340,8 @@ struct Cfg {
         << sfmt("  origin z: %.17g m\n  scaleheight z: %.17g m\n", anchor[2] + 0.5 * sides[2], 0.04 * sides[2])
         << "  random seed: 43\n"
         << sfmt("  update interval: %.17g s\n", 0.05 * total_time)
-        << "  starting time: 0. s\n  output sources: false\n";
+        << "  starting time: 0. s\n  output sources: "
+        << (source_log ? "true" : "false") << "\n";
     } else if (source_type == 3) {
       o << "PhotonSourceDistribution:\n  type: SingleSupernova\n  position: "
         << vec(centre, "m") << "\n"
